@@ -7,7 +7,7 @@ are **regenerated** from pkg/config/v2 (`Gen.ConfigGraph`).  Theorems: the gener
 normalisation `norm` and is stable from the first pass on — for *every* field table, and every struct of the
 regenerated graph without custom marshalers is such a table; the fixpoint law `M (U (M (U w))) = M (U w)` for the three
 representative custom pairs (FilterChain, Host / metadata, RetryPolicy / DurationConfig), whose hand-written shapes are
-checked against the regenerated tables.
+checked against the regenerated tables; and `ParseDuration ∘ String = id` for the digit-level model of package time.
 -/
 namespace MosnVerif.Props.C19
 open MosnVerif.Model MosnVerif.Model.ConfigCodec MosnVerif.Model.GoTypes
@@ -48,12 +48,18 @@ theorem host_fixpoint (w : Json) (x : HostV) (hU : hostU w = some x) :
     ∃ y, hostU (hostM x) = some y ∧ hostM y = hostM x :=
   ConfigCodec.host_fixpoint w x hU
 
-/-- **RetryPolicy** (`retry_timeout` ↔ `RetryTimeout`) — partial: assumes `DurLaw` (every duration ParseDuration returns
-is read back from its `String()` rendering), which is checked on boundary values below and differentially against
-package time, but not proved for the digit-level model.  Full statement: the same without `hlaw`. -/
-theorem retrypolicy_fixpoint_partial (hlaw : DurLaw) (w : Json) (x : RetryV) (hU : retryU w = some x) :
+/-- **duration_roundtrip**: in the digit-level model of package time, `time.ParseDuration (d.String ()) = d` for every
+int64 duration, and every duration `ParseDuration` returns is an int64 — so what `DurationConfig` writes is always
+read back unchanged. -/
+theorem duration_roundtrip (d : Int) (hlo : -(GoDuration.two63 : Int) ≤ d) (hhi : d < (GoDuration.two63 : Int)) :
+    GoDuration.parseDur (GoDuration.fmtDur d) = some d ∧
+    (∀ s d', GoDuration.parseDur s = some d' → -(GoDuration.two63 : Int) ≤ d' ∧ d' < (GoDuration.two63 : Int)) :=
+  ⟨GoDuration.parseDur_fmtDur d hlo hhi, fun s d' h => GoDuration.parseChars_range s.toList d' h⟩
+
+/-- **RetryPolicy** (`retry_timeout` ↔ `RetryTimeout`, through `api.DurationConfig`) -/
+theorem retrypolicy_fixpoint (w : Json) (x : RetryV) (hU : retryU w = some x) :
     ∃ y, retryU (retryM x) = some y ∧ retryM y = retryM x :=
-  retry_fixpoint_partial hlaw w x hU
+  retry_fixpoint w x hU
 
 /-! ## the hand-written shapes of the custom pairs against the regenerated tables -/
 
@@ -105,6 +111,6 @@ example : (match retryU (.obj [("retry_on", .bool true), ("retry_timeout", .str 
     | none => false) = true := by decide +kernel
 example : ([0, 1, 999, 1000, 1500, 999999, 1000000, 999999999, 1000000000, 59999999999, 60000000000, 3600000000000,
     3661000000001, -1, -1500000, 9223372036854775807, -9223372036854775808] : List Int).all
-    (fun d => durU (.str (fmtDur d)) == some d) = true := by decide +kernel
+    (fun d => durU (.str (GoDuration.fmtDur d)) == some d) = true := by decide +kernel
 
 end MosnVerif.Props.C19
